@@ -599,6 +599,32 @@ func Explore(opt Options, body func(x *X)) Stats {
 		}
 		return st
 	}
+	if rs := os.Getenv("VERIF_REPLAY_SCHEDULE"); rs != "" {
+		// replay one recorded schedule of one scenario, without the explorer
+		if os.Getenv("VERIF_REPLAY_SCENARIO") != opt.Name {
+			return st
+		}
+		var choices []int
+		for _, f := range strings.Split(rs, ",") {
+			n := 0
+			fmt.Sscanf(strings.TrimSpace(f), "%d", &n)
+			choices = append(choices, n)
+		}
+		x := runOne(body, choices, nil, 100000)
+		st.Executions = 1
+		if x.Diverged != "" {
+			st.Infra = x.Diverged
+			return st
+		}
+		if sig, detail := x.verdict(&opt); sig != "" {
+			st.Failures = 1
+			if opt.OnFail != nil {
+				opt.OnFail(sig, detail, x.Choices(), x.Trace)
+			}
+		}
+		st.BoundCompleted = 0
+		return st
+	}
 	maxBound := opt.Bound
 	bounds := []int{}
 	if maxBound < 0 {
